@@ -12,7 +12,7 @@ META = {
     'assumptions': ['AstVm is the semantics of both forms (as the property states)', 'counts are non-negative (the VM and the `>` counting jump only agree there)'],
     'floors': {'bodies': 50, 'runs_compared': 300},
 }
-SIZES = {'quick': 3000, 'thorough': 80000}
+SIZES = {'quick': 9000, 'thorough': 80000}
 STRUCT = {'if', 'while', 'dowhile', 'times', 'loop', 'block'}
 
 def make_req(cfg, body, states):
